@@ -28,7 +28,7 @@ def user_or_system_type(ctx, name="type"):
     return t
 
 
-def o1_origin(ctx, lx, ld, ack_to, tick_ms, role="net", multicast=True, reuse=False, readdress=False):
+def o1_origin(ctx, lx, ld, ack_to, tick_ms, role="net", multicast=True, reuse=False, readdress=False, outage=False):
     from circuitpython_nrf24l01.network.structs import RF24NetworkHeader
     tick = tick_ms * 1_000_000  # constant within a run; enumerated (a symbolic tick makes every time comparison nonlinear)
     clock = fresh_env(ctx, tick_ns=tick)
@@ -40,15 +40,23 @@ def o1_origin(ctx, lx, ld, ack_to, tick_ms, role="net", multicast=True, reuse=Fa
     if not multicast:
         node.allow_multicast = False
         node.node_address = x  # the documented way to apply the change
-    link, outcome = per_packet_link(ctx, radio)
-    node.tx_timeout = ctx.int("tx_timeout", 5, 30)
-    rt = ctx.int("route_timeout", 5, 40)
+    if outage:
+        # the first hop answers only after an outage of symbolic length around tx_timeout (the frame is re-sent from the TX FIFO
+        # meanwhile): "accepted by the first hop" is then decided by the LAST attempt, possibly the one crossing tx_timeout
+        link, outcome = outage_link(ctx, radio, clock, (0, 9, 19, 24, 29, 40, None), only=lambda i: i == 0)
+        node.tx_timeout = (12, 25)[ctx.choice("tx_timeout_pick", 2)]
+        rt = 40
+        node.route_timeout = rt
+    else:
+        link, outcome = per_packet_link(ctx, radio)
+        node.tx_timeout = ctx.int("tx_timeout", 5, 30)
+        rt = ctx.int("route_timeout", 5, 40)
     node.route_timeout = rt
     if readdress:  # the address is assigned (again) after the time-outs were chosen: they are the application's, and stay
         node.node_address = x
         ctx.check(s_and(node.route_timeout == rt, node.tx_timeout >= 5), "re-assigning node_address keeps route_timeout and tx_timeout")
     mtype = user_or_system_type(ctx)
-    inject_at = ctx.int("inject_at_look", 0, 70)  # 70 = never (beyond every loop)
+    inject_at = ctx.int("inject_at_look", 0, 70) if not outage else (2, 9, 200)[ctx.choice("inject_pick", 3)]  # 70 / 200 = never (beyond every loop)
     other = sym_addr(ctx, "O", 1) if ack_to == "other" else None
     state = {"t_inj": None, "start_looks": None}
 
@@ -90,6 +98,8 @@ def o1_origin(ctx, lx, ld, ack_to, tick_ms, role="net", multicast=True, reuse=Fa
         return
     first = pk[0]
     accepted = first["acked"] == True  # noqa: E712
+    if outage:
+        accepted = any(e["uid"] == first["uid"] and e["acked"] for e in radio.sent[sent0:])
     nh = NS.next_hop(x, d)
     should_wait = s_and(mtype > 64, mtype < 192, nh != d)
     t_accept = None
@@ -120,11 +130,62 @@ def o1_origin(ctx, lx, ld, ack_to, tick_ms, role="net", multicast=True, reuse=Fa
     ctx.reached()
 
 
-def o2_last_hop(ctx, role, lvl, lf, ld):
+def o6_two_writes_around_a_move(ctx, w, x, d):
+    """state carried across calls: the node writes to D from address W, is moved to X (node_address = X), writes to D again.
+    Whether it waits for a NETWORK_ACK, where the frame goes and what it answers is decided by where the node is NOW.
+    (Concrete addresses: a route memo keyed by addresses is then an ordinary dict.)"""
+    from circuitpython_nrf24l01.rf24_network import RF24Network
+    from circuitpython_nrf24l01.network.structs import RF24NetworkHeader
+    clock = fresh_env(ctx, tick_ns=1_000_000)
+    radio = SimRadio(clock, "node")
+    node = RF24Network(FakeSpiDev(radio), 0, Pin(radio), w)
+    radio.link = ScriptedLink(lambda n: True)
+    mtype = ctx.int("type", 65, 127)
+    arrives = bool(ctx.choice("network_ack_arrives", 2))
+    state = {"armed": False, "sent0": 0}
+
+    def on_look():
+        if state["armed"] and len(radio.sent) > state["sent0"] and radio.listening():
+            state["armed"] = False
+            a = node.node_address
+            radio.inject_rx(1, [d & 0xFF, d >> 8, a & 0xFF, a >> 8, 1, 0, NETWORK_ACK, 0])
+    clock.on_look = on_look
+    for step, here in enumerate((w, x, w)):
+        if step:
+            node.node_address = here
+        nh = int(NS.next_hop(here, d))
+        waits = nh != d
+        state["armed"], state["sent0"] = arrives and waits, len(radio.sent)
+        t0 = clock.now
+        ok = node.send(RF24NetworkHeader(d, mtype), ctx.bytes("body%d" % step, 2))
+        dt = clock.now - t0
+        state["armed"] = False
+        pk = distinct_packets(radio, state["sent0"])
+        what = "write #%d (node at %s)" % (step, oct(here))
+        ctx.check(len(pk) == 1, what + ": one frame on the air")
+        if pk:
+            pipe = 5 if bool(NS.is_descendant(d, here)) else int(NS.child_index(here))
+            ctx.check(bytes_eq(pk[0]["addr"], NS.phys(nh, pipe, False)), what + ": sent to the next hop as seen from the node's current address")
+            ctx.check((pk[0]["data"][0] | (pk[0]["data"][1] << 8)) == here, what + ": the header's origin is the current address")
+        if waits:
+            ctx.check(ok == arrives, what + ": a route with a relay - True iff the NETWORK_ACK arrived")
+            if not arrives:
+                ctx.check(dt >= node.route_timeout * 1_000_000, what + ": waited for route_timeout before giving up")
+        else:
+            ctx.check(ok == True, what + ": direct neighbour - True as soon as the hop accepted the frame")  # noqa: E712
+            ctx.check(dt < 20_000_000, what + ": direct neighbour - no NETWORK_ACK is awaited")
+        queue_frames(node)
+    ctx.reached()
+
+
+def o2_last_hop(ctx, role, lvl, lf, ld, outage=False):
     clock = fresh_env(ctx)
     radio, node, addr = build_node(ctx, clock, role, lvl)
     ctx.assume(addr != 0o4444)  # the unassigned-node address does not route, by design
-    link, outcome = per_packet_link(ctx, radio)
+    if outage:  # the delivery succeeds only after an outage of symbolic length around tx_timeout (25 ms), or never
+        link, outcome = outage_link(ctx, radio, clock, (0, 6, 12, 18, 24, 30, 45, None), only=lambda i: i == 0)
+    else:
+        link, outcome = per_packet_link(ctx, radio)
     f, d = sym_addr(ctx, "F", lf), sym_addr(ctx, "D", ld)
     ctx.assume(s_and(d != addr, f != d))
     mtype = ctx.int("type", 0, 255)
@@ -141,6 +202,8 @@ def o2_last_hop(ctx, role, lvl, lf, ld):
         return
     nh = NS.next_hop(addr, d)
     delivered = pk[0]["acked"] == True  # noqa: E712
+    if outage:
+        delivered = any(e["uid"] == pk[0]["uid"] and e["acked"] for e in radio.sent[sent0:])
     expect_ack = s_and(mtype > 64, mtype < 192, nh == d, f != addr, delivered)
     acks = [e for e in pk[1:]]
     ctx.check(bytes_eq(pk[0]["data"], frame) if len(pk[0]["data"]) == len(frame) else False,
@@ -318,6 +381,14 @@ def jobs(tier):
     if tier == "thorough":
         for lx, ld in ((1, 2), (2, 0), (3, 3)):
             out.append(Job("O1-origin-mesh-node", o1_origin, dict(lx=lx, ld=ld, ack_to="self", tick_ms=3, role="mesh"), cost=50, shards=4))
+    for lx, ld in (((1, 3), (2, 0)) if tier == "quick" else ((0, 2), (1, 3), (2, 0), (3, 3), (2, 4))):
+        out.append(Job("O1-origin-first-hop-through-an-outage", o1_origin, dict(lx=lx, ld=ld, ack_to="self", tick_ms=1, outage=True), cost=120, shards=6))
+    for role, lvl, lf, ld in ((("net", 1, 3, 2), ("routing", 2, 0, 3)) if tier == "quick" else
+                              (("net", 1, 3, 2), ("routing", 2, 0, 3), ("mesh", 3, 1, 4), ("net", 0, 2, 1))):
+        out.append(Job("O2-last-hop-delivery-through-an-outage", o2_last_hop, dict(role=role, lvl=lvl, lf=lf, ld=ld, outage=True), cost=60, shards=2))
+    for w, x, d in (((0o3, 0o4, 0o13), (0o4, 0o3, 0o13), (0o12, 0o2, 0o22), (0, 0o1, 0o21)) if tier == "quick" else
+                    ((0o3, 0o4, 0o13), (0o4, 0o3, 0o13), (0o12, 0o2, 0o22), (0, 0o1, 0o21), (0o21, 0o121, 0o1), (0o5, 0o15, 0o115), (0o115, 0o5, 0o15))):
+        out.append(Job("O6-two-writes-around-a-move", o6_two_writes_around_a_move, dict(w=w, x=x, d=d), cost=900))  # (concrete and instant: scheduled first)
     for src, dst in ROUTES:
         out.append(Job("O3-co-simulation-one-failing-hop", o3_cosim_failing_hop, dict(src=src, dst=dst), cost=60))
     for src, dst in (ROUTES[:3] if tier == "quick" else ROUTES):
@@ -353,7 +424,7 @@ META = {
                         "contents, every single failing forward hop / acknowledgement relay",
                "thorough": "all 24 level pairs with every tick in O1 (also from a mesh node), half of all role x level x level x level "
                            "combinations in O2"},
-    "outside": ["fragmented messages (the statement is about single-frame messages)", "clock increments that vary within one run",
+    "outside": ["O6 (two writes around a move) uses concrete address triples (4 quick / 7 thorough), O1/O2 through an outage use fixed time-outs (tx 12/25 ms, route 40 ms) and 7-8 outage lengths", "fragmented messages (the statement is about single-frame messages)", "clock increments that vary within one run",
                 "the exact boundary: an acknowledgement arriving within two ticks of the deadline may go either way",
                 "schedules of the co-simulation other than the cooperative one and 2**K hold-back schedules (K = 4 quick / 6 thorough, each a few SPI transactions late)", "more than one failure per message in the co-simulation; trees other than the co-simulated one (the per-node steps cover all addresses)"],
     "assumptions": ["a frame can only be received while the radio listens (an injection at a look where it does not is lost)",
